@@ -22,13 +22,14 @@ arithmetic, explicit `panic!`) and every loop without a bound (`Trap.hang`) is a
   in the window, `fid ≤ lastFragmentId` (`PSend.FragOk`);
 * `FrameQ.WInv` (C15) and `FrameQ.FqTime`: no send time / ack time / feedback time after `nowMs`;
 * `PRecv.Inv W M` (C03Recv) for some `W`, `M`;
-* `Rate.RateInv` (C03Rate) at `nowMs`, and `maxSendRate < 2^31`;
+* `Rate.RateInv` (C03Rate) at `nowMs`;
 * `syncTimeoutBase ≤ nowMs` and `nowMs = (lastNow - timeBase) / 10^6` where `lastNow` is the time of the
   last `step` (of creation before the first).
 
 Hypotheses that remain (witnesses of their necessity at the end of the file):
-* on the configuration: `CfgOk` — `Endpoint.hcConfig` satisfies all of it except
-  `txBandwidthLimit < 2^31` (`C03_hc_cfg_endpoint`; the bound is tight: `C03_hc_bandwidth_witness`);
+* on the configuration: `CfgOk` — `Endpoint.hcConfig` satisfies all of it (`C03_hc_cfg_endpoint`); there is
+  no condition on the bandwidth limit any more: the slow-start doubling is `send_rate.saturating_mul(2)`
+  (`C03_hc_bandwidth_example` is the run that trapped with `2 * send_rate` at a limit of `2^31`);
 * `send`: `channel_id < CHANNEL_COUNT` (`C03_hc_channel_witness`) and `data.len() ≤ MAX_PACKET_SIZE` (no
   witness: it is the documented precondition; the proof uses it for the frame-size accounting on which
   the termination argument of the resend loop rests), both asserted by the public `send`;
@@ -52,10 +53,10 @@ theorem C03_hc_init (ops : FloatOps F) (cfg : Config) (now : Nat) (rng : Rng) (h
   ⟨hcInv_init ops cfg now rng hc, rfl⟩
 
 /-- The configuration built by the endpoints (`Endpoint.hcConfig`: frame and packet windows 4096,
-packet base ids reduced mod `2^20`) is valid provided the local nonce is a `u32` and the negotiated
-bandwidth limit is below `2^31` bytes/s. -/
+packet base ids reduced mod `2^20`) is valid provided the local nonce is a `u32`; the negotiated
+bandwidth limit `min max_send_rate rate` is arbitrary. -/
 theorem C03_hc_cfg_endpoint (ep : Endpoint.EpConfig) (localNonce remoteNonce rate alloc : Nat)
-    (hn : localNonce < 2^32) (hbw : min (ep.maxSendRate % 2^32) rate < 2^31) :
+    (hn : localNonce < 2^32) :
     CfgOk (Endpoint.hcConfig ep localNonce remoteNonce rate alloc) where
   txFrameBase := hn
   txFrameWin := by show MAX_FRAME_WINDOW_SIZE + MAX_FRAME_WINDOW_SIZE < 2^31; decide
@@ -63,7 +64,6 @@ theorem C03_hc_cfg_endpoint (ep : Endpoint.EpConfig) (localNonce remoteNonce rat
   txPacketWin := by show MAX_PACKET_WINDOW_SIZE < 2^20; decide
   rxPacketBase := by show remoteNonce % PACKET_ID_SPAN < 2^20; exact Nat.mod_lt _ (by decide)
   rxPacketWin := by show 0 < MAX_PACKET_WINDOW_SIZE; decide
-  bandwidth := hbw
 
 /-- (b1) `handle_data_frame`: a data frame with ANY frame id, nonce and datagrams (any field values,
 e.g. `fragment_id > fragment_id_last`, channel `≥ 64`, sequence id `≥ 2^20`) returns and keeps the
@@ -250,26 +250,39 @@ theorem C03_hc_step_reset_witness :
 RTT sample of 0 ms). -/
 def satInitOps : FloatOps Nat := { exOps with initRate := fun _ => 2^32 - 1 }
 
-/-- **The bound `txBandwidthLimit < 2^31` of `CfgOk` is tight** (at the level of the half connection; cf.
-`C03_rate_overflow_witness`): with a limit of `2^31` — not excluded by `Endpoint.hcConfig`, which takes the
-minimum of the local `max_send_rate` and the rate announced by the peer in the handshake — a first
-acknowledged frame sets the send rate to `2^31` and the acknowledgement of a second frame one round trip
-later makes the slow-start doubling `2 * send_rate` overflow `u32`, although the float operations
-satisfy `BisectConverges` and `LossOk` and the clock is monotone. (Both `max_send_rate ≥ 2^31` locally and
-a peer announcing `≥ 2^31` are needed; the default `max_send_rate` is 2 000 000.) -/
-theorem C03_hc_bandwidth_witness :
-    ∃ (ops : FloatOps Nat) (evs : List Ev), BisectConverges ops ∧ LossOk ops ∧ evsOk 0 evs = true ∧
-      runEvs ops (init ops { exCfg with txBandwidthLimit := 2^31 } 0 { fifo := [], state := 0 }) evs
-        = .error .overflow :=
-  ⟨satInitOps,
-   [.send (List.replicate 100 7) 0 .reliable, .step 0, .flush,
-    .ackFrame 1 1 [{ baseId := 0, bitfield := 1, nonce := true }],
-    .step 100000000,
-    .send (List.replicate 100 7) 0 .reliable, .flush,
-    .ackFrame 2 2 [{ baseId := 1, bitfield := 1, nonce := true }],
-    .ackFrame 2 2 [{ baseId := 1, bitfield := 1, nonce := false }],
-    .step 300000000],
-   .stop (by decide), fun _ => rfl, by decide +kernel, Rate.trapOf_eq_some (by decide +kernel)⟩
+/-- The script that made the unrepaired code overflow (`2 * self.send_rate` in the slow-start doubling,
+formerly `C03_hc_bandwidth_witness`): a first acknowledged frame sets the send rate to the limit and the
+acknowledgement of a second frame one round trip later doubles it. -/
+def exDoubling : List Ev :=
+  [.send (List.replicate 100 7) 0 .reliable, .step 0, .flush,
+   .ackFrame 1 1 [{ baseId := 0, bitfield := 1, nonce := true }],
+   .step 100000000,
+   .send (List.replicate 100 7) 0 .reliable, .flush,
+   .ackFrame 2 2 [{ baseId := 1, bitfield := 1, nonce := true }],
+   .ackFrame 2 2 [{ baseId := 1, bitfield := 1, nonce := false }],
+   .step 300000000]
+
+/-- **No bound on `txBandwidthLimit` is needed** (cf. `C03_rate_saturate_example`): with a limit of `2^31`
+— `Endpoint.hcConfig` takes the minimum of the local `max_send_rate` and the rate announced by the peer in
+the handshake, both `u32` — and with the limit `u32::MAX`, `exDoubling` runs to `.ok`: the slow-start
+doubling `send_rate.saturating_mul(2)` saturates and is capped to the limit again (rate controller in
+`slowStart (some 300)`, i.e. the doubling branch was taken). With `2 * send_rate` this run trapped
+(`Trap.overflow`). `CfgOk` holds for both configurations, so this is an instance of
+`C03_hc_run_no_trap`. -/
+theorem C03_hc_bandwidth_example :
+    BisectConverges satInitOps ∧ LossOk satInitOps ∧ evsOk 0 exDoubling = true ∧
+    CfgOk { exCfg with txBandwidthLimit := 2^31 } ∧ CfgOk { exCfg with txBandwidthLimit := 2^32 - 1 } ∧
+    (match runEvs satInitOps
+        (init satInitOps { exCfg with txBandwidthLimit := 2^31 } 0 { fifo := [], state := 0 }) exDoubling with
+     | .ok (s, _) => decide (s.rate.sendRate = 2^31 ∧ s.rate.mode = .slowStart (some 300))
+     | .error _ => false) = true ∧
+    (match runEvs satInitOps
+        (init satInitOps { exCfg with txBandwidthLimit := 2^32 - 1 } 0 { fifo := [], state := 0 })
+        exDoubling with
+     | .ok (s, _) => decide (s.rate.sendRate = 2^32 - 1 ∧ s.rate.mode = .slowStart (some 300))
+     | .error _ => false) = true :=
+  ⟨.stop (by decide), fun _ => rfl, by decide +kernel, by decide, by decide, by decide +kernel,
+    by decide +kernel⟩
 
 /-- A clock running backwards makes `step` trap (`now_ms - last_send_time` in `get_feedback`). -/
 theorem C03_hc_clock_witness :
